@@ -2,6 +2,7 @@
 import Driver.Util
 import SpyneModel.XmlSpec
 import SpyneModel.Soap
+import SpyneModel.Client
 import SpyneModel.Generated.Facts08
 import SpyneModel.Generated.Facts01
 open Lean SpyneModel SpyneModel.Xml Driver
@@ -11,6 +12,7 @@ namespace XmlCodec
 def F := SpyneModel.Generated.facts08
 def X := SpyneModel.Generated.factsXml
 def S := SpyneModel.Generated.factsSoap
+def CF := SpyneModel.Generated.factsClient
 
 def getObj (j : Json) (k : String) : Json :=
   match j.getObjVal? k with | .ok v => v | .error _ => Json.null
@@ -203,6 +205,31 @@ def methodsOf (j : Json) : Soap.Methods :=
     | .arr #[.str k, t] => (k.toList, tyOf t)
     | _ => ([], .prim .boolean {}))
 
+def styleOf (s : String) : Soap.Style :=
+  match s with
+  | "bare" => .bare | "out_bare" => .outBare | "empty" => .empty | "empty_out_bare" => .emptyOutBare | _ => .wrapped
+
+def tyListOf (j : Json) : Option (List Ty) :=
+  match j with
+  | .arr a => some (a.toList.map tyOf)
+  | _ => none
+
+def hdrsOf (j : Json) (k : Text) : Option (List Ty) :=
+  match ((getArr j "hdrs").toList.filterMap (fun e =>
+    match e with
+    | .arr #[.str key, cls] => if key.toList = k then some (tyListOf cls) else none
+    | _ => none)) with
+  | r :: _ => r
+  | [] => none
+
+def outHeaderOf (j : Json) : Soap.OutHeader :=
+  let vals := (getArr j "vals").toList.map valOf
+  match getStr j "kind" with
+  | "single" => .single (vals.headD .none)
+  | "list" => .list vals
+  | "tuple" => .tuple vals
+  | _ => .none
+
 def step (j : Json) : Json :=
   let cfg := cfgOf (getObj j "cfg")
   let I := ifaceOf (getObj j "iface")
@@ -226,6 +253,29 @@ def step (j : Json) : Json :=
   | "xml.serverDecode" =>
     outJson (fun (r : Text × Val) => Json.arr #[strJson r.1, valJson r.2])
       (Soap.xmlServerDecode F X cfg I (methodsOf j) (nodeOf (getObj j "doc")))
+  | "soap.decodeH" =>
+    outJson (fun (r : Text × Option Val × Val) => Json.arr #[strJson r.1,
+        (match r.2.1 with | none => Json.mkObj [("absent", Json.bool true)] | some h => Json.mkObj [("h", valJson h)]),
+        valJson r.2.2])
+      (Soap.soapServerDecodeH F X S cfg I (soapVerOf j) (methodsOf j) (hdrsOf j) (nodeOf (getObj j "doc")))
+  | "soap.headers" =>
+    outJson (fun (r : Option (List Node)) => match r with
+        | none => Json.null
+        | some ns => Json.arr (ns.map nodeJson).toArray)
+      (Soap.headerNodes F S cfg I (tyListOf (getObj j "classes")) (outHeaderOf (getObj j "out")))
+  | "response" =>
+    Json.mkObj [("ok", Json.arr ((Soap.responseNodes F cfg I (styleOf (getStr j "style")) (strText j "outName")
+      (tyOf (getObj j "outMsg")) ((getArr j "rets").toList.map valOf)).map nodeJson).toArray)]
+  | "argsOf" =>
+    Json.mkObj [("ok", Json.arr ((Soap.argsOf (styleOf (getStr j "style")) (valOf (getObj j "val"))).map valJson).toArray)]
+  | "client.pack" =>
+    Json.mkObj [("ok", valJson (Client.requestObject CF (tyOf (getObj j "inMsg"))
+      ((getArr j "args").toList.map valOf)
+      ((getArr j "kwargs").toList.map (fun e => match e with
+        | .arr #[.str k, v] => (k.toList, valOf v)
+        | _ => ([], Val.none)))))]
+  | "client.unwrap" =>
+    Json.mkObj [("ok", valJson (Client.unwrap (tyOf (getObj j "outMsg")) (valOf (getObj j "val"))))]
   | "soap.encode" =>
     Json.mkObj [("ok", nodeJson (Soap.envelope (soapVerOf j)
       (encode F cfg I (strText j "ns") (strText j "name") (tyOf (getObj j "ty")) (valOf (getObj j "val")))))]
